@@ -527,10 +527,75 @@ def _insertion_points(name, text):
     return [k for k in range(0, n + 1) if k not in banned]
 
 
+# programs that sit EXACTLY AT a linter's threshold (one more level / one more method would be reported): an edit that is
+# mistaken for structure -- a blank or comment line directly above `elif` / `else` / `except` / `finally`, between decorators,
+# between methods -- must not push them over
+THRESHOLD_CORPUS = {
+    "at_nesting_limit.py": '''import functools
+
+
+@functools.lru_cache
+@functools.wraps(print)
+def handler(a, b, c, d):
+    if a:
+        for x in b:
+            while c:
+                if d:
+                    value = 1
+                elif x:
+                    value = 2
+                elif a > 1:
+                    value = 3
+                else:
+                    value = 4
+                break
+    try:
+        with open(a) as fh:
+            for row in fh:
+                if row:
+                    value = row
+                else:
+                    value = None
+    except ValueError:
+        value = 0
+    except OSError:
+        value = -1
+    else:
+        value = value or 1
+    finally:
+        close(a)
+    return value
+''',
+    "at_nesting_limit.ts": '''function handler(a: boolean, b: number[], c: boolean, d: boolean): number {
+  let value = 0;
+  for (const x of b) {
+    if (c) {
+      value = 1;
+    } else if (d) {
+      value = 2;
+    } else {
+      value = 3;
+    }
+  }
+  try {
+    value += b.length;
+  } catch (err) {
+    value = -1;
+  } finally {
+    value += 1;
+  }
+  return value;
+}
+''',
+    "at_method_limit.py": "class Ledger:\n" + "\n".join(f"    def entry_{i}(self):\n        return {i}\n" for i in range(7)),
+    "at_method_limit.ts": "export class Ledger {\n" + "".join(f"  entry{i}(): number {{\n    return {i};\n  }}\n\n" for i in range(7)) + "}\n",
+}
+
+
 def _edited_files():
     from contracts.c11_containment import MUTATION_CORPUS
     files = {}
-    for name, text in MUTATION_CORPUS.items():
+    for name, text in list(MUTATION_CORPUS.items()) + list(THRESHOLD_CORPUS.items()):
         stem, ext = name.rsplit(".", 1)
         lines = text.split("\n")
         files[name] = (text, name, "baseline", 0)
@@ -597,3 +662,13 @@ def c13_edit_invariance_bounded(ctx):
                       else f"{g['n']} edits: findings unchanged up to the line shift", g["n"]))
     from contracts.c12_sites import reuse_scenario
     return obs + reuse_scenario(ctx, "c13-edit-invariance-bounded")
+
+
+# ================================================================== nesting: `elif` is decided by the tree shape alone (C13 view)
+# A blank or comment line directly above `elif` must not turn the chain into a nested else-if: the test may look at the
+# node kinds of the `orelse` list only -- no lineno / end_lineno / col_offset.
+@contract("src/linters/nesting/python_analyzer.py::_is_elif_chain~shape", props=["C13"], types=dict(orelse=SeqOf(PyNode)),
+          returns=Bool)
+class IsElifChainShape:
+    def ensures_a_function_of_the_node_kinds_only(orelse, result):
+        return result == (len(orelse) == 1 and isinstance(orelse[0], ast.If))
